@@ -301,6 +301,8 @@ namespace osmium {
                 PBFDataBlobDecoder(std::string&& input, osmium::osm_entity_bits::type read_types, osmium::io::read_meta meta) :
                     m_input_buffer(std::make_shared<std::string>(std::move(input))), m_read_types(read_types), m_read_metadata(meta) {}
                 osmium::memory::Buffer operator()() {
+                    static std::string output;                          // W4: one decompression buffer shared by all workers
+                    output.clear();
                     PBFPrimitiveBlockDecoder decoder{protozero::data_view{}, m_read_types, m_read_metadata};
                     if (m_out) {
                         add_to_queue(*m_out, decoder());                // W1: a pool task enqueues its own result
